@@ -5,18 +5,22 @@ package main
 
 import (
 	"bytes"
+	"compress/gzip"
+	"encoding/binary"
 	"encoding/hex"
 	"encoding/json"
 	"fmt"
+	"io"
 	"os"
 	"os/exec"
 	"strings"
 	"sync"
 	"time"
 
+	"github.com/janelia-flyem/dvid/datastore"
 	"github.com/janelia-flyem/dvid/datatype/common/downres"
 	"github.com/janelia-flyem/dvid/datatype/common/labels"
-	_ "github.com/janelia-flyem/dvid/datatype/labelmap"
+	"github.com/janelia-flyem/dvid/datatype/labelmap"
 	"github.com/janelia-flyem/dvid/dvid"
 	"verif/harness/dv"
 	"verif/harness/lib"
@@ -30,6 +34,23 @@ type jwrite struct {
 	Child  bool        `json:"child,omitempty"` // commit the node and continue on a new child version before this write
 	Par    int         `json:"par,omitempty"`   // consecutive writes with the same non-zero group are issued concurrently
 	Delay  int         `json:"delay,omitempty"` // microseconds this write of a concurrent group starts after the group's first
+	// how the label data is changed: "" = POST raw (mutate); "blocks" = POST blocks with the options below
+	// (Off/Size in voxels of level Scale); "bodysplit" = Data.SplitLabels called directly (the /split
+	// endpoint is off by default); "svsplit" = POST split-supervoxel.  For the splits Paints is the mask of
+	// the split volume over the box Off/Size (non-zero = inside), intersected with the body / supervoxel.
+	Via     string  `json:"via,omitempty"`
+	Scale   int     `json:"scale,omitempty"`
+	Downres bool    `json:"downres,omitempty"`
+	NoIndex bool    `json:"noindexing,omitempty"`
+	Comp    string  `json:"compression,omitempty"`
+	Label   uint64  `json:"label,omitempty"`  // body or supervoxel to split
+	NoDown  bool    `json:"nodown,omitempty"` // svsplit with downres=false
+	At      *[3]int `json:"at,omitempty"`     // Label = the supervoxel (svsplit) / body (bodysplit) found at this voxel when the write is issued
+}
+
+// legal: false for the documented illegal option combinations of POST blocks (to be refused)
+func (w jwrite) legal() bool {
+	return w.Via != "blocks" || (!(w.Downres && w.Scale != 0) && (w.Comp == "" || w.Comp == "blocks"))
 }
 
 type jcase struct {
@@ -54,9 +75,10 @@ func mkBlock(g [3]int, ps []blk.Paint) (*labels.Block, error) {
 
 // httpResult is what one labelmap history gives: the class of every write and the level digests.
 type httpResult struct {
-	Status []uint64       `json:"status"`
-	Levels []string       `json:"levels"`
-	Counts map[string]int `json:"counts"`
+	Status []uint64            `json:"status"`
+	Levels []string            `json:"levels"`
+	Counts map[string]int      `json:"counts"`
+	Tables map[int][][3]uint64 `json:"tables,omitempty"` // per split write: (old label, inside split volume 0/1, new label)
 }
 
 // runHTTP plays one history against an in-process DVID.  It runs in a child process of the driver:
@@ -85,9 +107,165 @@ func runHTTP(c jcase) (res httpResult) {
 		fmt.Fprintln(os.Stderr, err)
 		os.Exit(2)
 	}
+	res.Tables = map[int][][3]uint64{}
+	readWin := func(node string, body bool) []uint64 {
+		q := "supervoxels=true"
+		if body {
+			q = "supervoxels=false"
+		}
+		r := dv.Get(fmt.Sprintf("/api/node/%s/%s/raw/0_1_2/%d_%d_%d/%d_%d_%d?%s", node, name, wd[0], wd[1], wd[2], c.Win[0], c.Win[1], c.Win[2], q))
+		if r.Status != 200 || len(r.Body) != 8*wd[0]*wd[1]*wd[2] {
+			return nil
+		}
+		return blk.FromBytes(r.Body)
+	}
+	classOf := func(r dv.Resp) uint64 {
+		switch {
+		case r.Status == 200:
+			return 0
+		case r.Status >= 500 && strings.Contains(string(r.Body), "anic"):
+			return 2
+		}
+		return 1
+	}
 	post := func(i int, node string) uint64 {
 		w := c.Writes[i]
 		arr := blk.Expand(w.Size[0], w.Size[1], w.Size[2], w.Paints)
+		switch w.Via {
+		case "blocks":
+			var buf bytes.Buffer
+			for z := 0; z < w.Size[2]; z += bs[2] {
+				for y := 0; y < w.Size[1]; y += bs[1] {
+					for x := 0; x < w.Size[0]; x += bs[0] {
+						sub := make([]uint64, 0, bs[0]*bs[1]*bs[2])
+						for zz := z; zz < z+bs[2]; zz++ {
+							for yy := y; yy < y+bs[1]; yy++ {
+								o := (zz*w.Size[1]+yy)*w.Size[0] + x
+								sub = append(sub, arr[o:o+bs[0]]...)
+							}
+						}
+						b, err := labels.MakeBlock(blk.ToBytes(sub), dvid.Point3d{int32(bs[0]), int32(bs[1]), int32(bs[2])})
+						if err != nil {
+							return 1
+						}
+						ser, _ := b.MarshalBinary()
+						var gz bytes.Buffer
+						zw := gzip.NewWriter(&gz)
+						zw.Write(ser)
+						zw.Close()
+						for _, v := range []int{floorDiv(w.Off[0]+x, bs[0]), floorDiv(w.Off[1]+y, bs[1]), floorDiv(w.Off[2]+z, bs[2]), gz.Len()} {
+							binary.Write(&buf, binary.LittleEndian, int32(v))
+						}
+						buf.Write(gz.Bytes())
+					}
+				}
+			}
+			q := fmt.Sprintf("scale=%d&downres=%v&noindexing=%v", w.Scale, w.Downres, w.NoIndex)
+			if w.Comp != "" {
+				q += "&compression=" + w.Comp
+			}
+			res.Counts[fmt.Sprintf("http:blocks:scale=%d,downres=%v,noindexing=%v,compression=%q", w.Scale, w.Downres, w.NoIndex, w.Comp)]++
+			return classOf(dv.Post(fmt.Sprintf("/api/node/%s/%s/blocks?%s", node, name, q), buf.Bytes()))
+		case "bodysplit", "svsplit":
+			datastore.BlockOnUpdating(dvid.UUID(node), dvid.InstanceName(name))
+			before := readWin(node, false)
+			of := readWin(node, w.Via == "bodysplit") // membership: body labels for a body split
+			if before == nil || of == nil {
+				return 1
+			}
+			if w.At != nil {
+				w.Label = of[((w.At[2]-c.Win[2])*wd[1]+w.At[1]-c.Win[1])*wd[0]+w.At[0]-c.Win[0]]
+			}
+			inMask := func(x, y, z int) bool { // window-relative voxel
+				ax, ay, az := c.Win[0]+x-w.Off[0], c.Win[1]+y-w.Off[1], c.Win[2]+z-w.Off[2]
+				if ax < 0 || ay < 0 || az < 0 || ax >= w.Size[0] || ay >= w.Size[1] || az >= w.Size[2] {
+					return false
+				}
+				return arr[(az*w.Size[1]+ay)*w.Size[0]+ax] != 0
+			}
+			var rles dvid.RLEs
+			for z := 0; z < wd[2]; z++ {
+				for y := 0; y < wd[1]; y++ {
+					for x := 0; x < wd[0]; {
+						if !(inMask(x, y, z) && of[(z*wd[1]+y)*wd[0]+x] == w.Label) {
+							x++
+							continue
+						}
+						x0 := x
+						for x < wd[0] && inMask(x, y, z) && of[(z*wd[1]+y)*wd[0]+x] == w.Label {
+							x++
+						}
+						rles = append(rles, dvid.NewRLE(dvid.Point3d{int32(c.Win[0] + x0), int32(c.Win[1] + y), int32(c.Win[2] + z)}, int32(x-x0)))
+					}
+				}
+			}
+			buf := new(bytes.Buffer)
+			buf.WriteByte(dvid.EncodingBinary)
+			binary.Write(buf, binary.LittleEndian, uint8(3))
+			binary.Write(buf, binary.LittleEndian, byte(0))
+			buf.WriteByte(byte(0))
+			binary.Write(buf, binary.LittleEndian, uint32(0))
+			binary.Write(buf, binary.LittleEndian, uint32(len(rles)))
+			rb, _ := rles.MarshalBinary()
+			buf.Write(rb)
+			res.Counts[fmt.Sprintf("http:%s:runs:%s", w.Via, blk.Bucket(len(rles)))]++
+			var st uint64
+			if w.Via == "bodysplit" {
+				d, err := labelmap.GetByUUIDName(dvid.UUID(node), dvid.InstanceName(name))
+				if err != nil {
+					return 1
+				}
+				v, err := datastore.VersionFromUUID(dvid.UUID(node))
+				if err != nil {
+					return 1
+				}
+				if _, _, err = d.SplitLabels(v, w.Label, io.NopCloser(buf), dvid.ModInfo{User: "verif"}); err != nil {
+					st = 1
+				}
+			} else {
+				q := ""
+				if w.NoDown {
+					q = "?downres=false"
+				}
+				st = classOf(dv.Post(fmt.Sprintf("/api/node/%s/%s/split-supervoxel/%d%s", node, name, w.Label, q), buf.Bytes()))
+			}
+			if st != 0 {
+				return st
+			}
+			datastore.BlockOnUpdating(dvid.UUID(node), dvid.InstanceName(name))
+			downres.BlockOnUpdating(dvid.UUID(node), dvid.InstanceName(name))
+			after := readWin(node, false)
+			if after == nil {
+				return 1
+			}
+			// the relabelling Go performed, as a table (old label, inside the split volume, new label)
+			seen := map[[2]uint64]bool{}
+			var tbl [][3]uint64
+			blocksChanged := map[[3]int]bool{}
+			for z := 0; z < wd[2]; z++ {
+				for y := 0; y < wd[1]; y++ {
+					for x := 0; x < wd[0]; x++ {
+						i := (z*wd[1]+y)*wd[0] + x
+						if before[i] == after[i] {
+							continue
+						}
+						blocksChanged[[3]int{x / bs[0], y / bs[1], z / bs[2]}] = true
+						m := uint64(0)
+						if inMask(x, y, z) {
+							m = 1
+						}
+						if k := [2]uint64{before[i], m}; !seen[k] {
+							seen[k] = true
+							tbl = append(tbl, [3]uint64{before[i], m, after[i]})
+						}
+					}
+				}
+			}
+			res.Tables[i] = tbl
+			res.Counts[fmt.Sprintf("http:%s:blocks-changed:%d", w.Via, len(blocksChanged))]++
+			res.Counts[fmt.Sprintf("http:%s:relabelled-classes:%d", w.Via, len(tbl))]++
+			return 0
+		}
 		url := fmt.Sprintf("/api/node/%s/%s/raw/0_1_2/%d_%d_%d/%d_%d_%d", node, name, w.Size[0], w.Size[1], w.Size[2], w.Off[0], w.Off[1], w.Off[2])
 		if i > 0 {
 			url += "?mutate=true"
@@ -139,10 +317,10 @@ func runHTTP(c jcase) (res httpResult) {
 			wg.Wait()
 			res.Counts[fmt.Sprintf("http:concurrent-group:%d", j-i)]++
 		}
-		for _, st := range gres {
+		for q, st := range gres {
 			status = append(status, st)
 			res.Counts[fmt.Sprintf("http:write-status-class:%d", st)]++
-			if st != 0 {
+			if st != 0 && !(st == 1 && !c.Writes[i+q].legal()) {
 				failed = true
 			}
 		}
@@ -267,9 +445,11 @@ func main() {
 		run.Add("vote", term, c, fmt.Sprintf("vote/%v/%x", c.N, blk.Digest(arr)))
 	}
 
-	addHTTP := func(c jcase) {
+	// the HTTP histories are collected and played at the end, several child processes at a time
+	var pending []jcase
+	addHTTP := func(c jcase) { pending = append(pending, c) }
+	playHTTP := func(c jcase) (res httpResult) {
 		// the history runs in a child process (this binary with VERIF_C14_CHILD set)
-		var res httpResult
 		crashed := false
 		{
 			f, err := os.CreateTemp("", "c14case*.json")
@@ -295,6 +475,9 @@ func main() {
 			}
 		}
 		_ = crashed
+		return
+	}
+	emitHTTP := func(c jcase, res httpResult) {
 		for k, n := range res.Counts {
 			for q := 0; q < n; q++ {
 				run.Count(k)
@@ -315,8 +498,38 @@ func main() {
 			ws[i] = fmt.Sprintf("(%s%%Z,%s%%Z,%s%%Z,(%d,%d,%d),%s)", lib.CoqZ(int64(w.Off[0])), lib.CoqZ(int64(w.Off[1])), lib.CoqZ(int64(w.Off[2])),
 				w.Size[0], w.Size[1], w.Size[2], blk.CoqPaints(w.Paints))
 		}
+		hist := false
+		for _, w := range c.Writes {
+			if w.Via != "" {
+				hist = true
+			}
+		}
+		if hist {
+			// every write of the history is printed (a refused illegal write leaves the state alone)
+			ws = make([]string, len(c.Writes))
+			for i, w := range c.Writes {
+				pos := fmt.Sprintf("%s%%Z %s%%Z %s%%Z (%d,%d,%d)", lib.CoqZ(int64(w.Off[0])), lib.CoqZ(int64(w.Off[1])), lib.CoqZ(int64(w.Off[2])), w.Size[0], w.Size[1], w.Size[2])
+				switch w.Via {
+				case "":
+					ws[i] = fmt.Sprintf("(WRaw %s %s)", pos, blk.CoqPaints(w.Paints))
+				case "blocks":
+					ws[i] = fmt.Sprintf("(WBlocks %d %v %v %s %s)", w.Scale, w.Downres, w.legal(), pos, blk.CoqPaints(w.Paints))
+				default:
+					var es []string
+					for _, e := range res.Tables[i] {
+						es = append(es, fmt.Sprintf("(%d,%d,%d)", e[0], e[1], e[2]))
+					}
+					ws[i] = fmt.Sprintf("(WRelabel %v %s %s [%s])", !w.NoDown, pos, blk.CoqPaints(w.Paints), strings.Join(es, ";"))
+				}
+				run.Count("http:via:" + map[string]string{"": "raw"}[w.Via] + w.Via)
+			}
+		}
 		term := fmt.Sprintf("(CHttp %d [%s] %s %s %s (%d,%d,%d) %s [%s])", c.Max, strings.Join(ws, "; "), lib.CoqZ(int64(c.Win[0])), lib.CoqZ(int64(c.Win[1])), lib.CoqZ(int64(c.Win[2])),
 			wd[0], wd[1], wd[2], lib.CoqNList(status), strings.Join(levels, "; "))
+		if hist {
+			term = fmt.Sprintf("(CHist %d (%d,%d,%d) [%s] %s %s %s (%d,%d,%d) %s [%s])", c.Max, bs[0], bs[1], bs[2], strings.Join(ws, "; "),
+				lib.CoqZ(int64(c.Win[0])), lib.CoqZ(int64(c.Win[1])), lib.CoqZ(int64(c.Win[2])), wd[0], wd[1], wd[2], lib.CoqNList(status), strings.Join(levels, "; "))
+		}
 		run.Count(fmt.Sprintf("http:blocksize:%dx%dx%d", bs[0], bs[1], bs[2]))
 		neg := "nonneg"
 		if c.Win[0] < 0 || c.Win[1] < 0 || c.Win[2] < 0 {
@@ -326,6 +539,26 @@ func main() {
 		run.Count(fmt.Sprintf("http:maxlevel:%d", c.Max))
 		run.Count(fmt.Sprintf("http:writes:%d", len(c.Writes)))
 		run.Add("http", term, c, fmt.Sprintf("http/%v/%d/%d/%v", c.Win, c.Max, len(c.Writes), c.Writes[len(c.Writes)-1].Off))
+	}
+
+	flushHTTP := func() {
+		results := make([]httpResult, len(pending))
+		sem := make(chan struct{}, 4)
+		var wg sync.WaitGroup
+		for i := range pending {
+			wg.Add(1)
+			go func(i int) {
+				defer wg.Done()
+				sem <- struct{}{}
+				results[i] = playHTTP(pending[i])
+				<-sem
+			}(i)
+		}
+		wg.Wait()
+		for i := range pending {
+			emitHTTP(pending[i], results[i])
+		}
+		pending = nil
 	}
 
 	dispatch := func(c jcase) {
@@ -346,6 +579,7 @@ func main() {
 			os.Exit(2)
 		}
 		dispatch(c)
+		flushHTTP()
 		run.Finish("c14case", "replay", tail)
 		return
 	}
@@ -376,11 +610,21 @@ func main() {
 		o2[3] = []blk.Paint{blk.Fill(9)}
 		addDown(jcase{Kind: "down", G: g2, Paints: noise([]uint64{1, 2}), Octs: o2})
 	}
+	// a solid non-zero receiver (a stored parent over a uniform region) with some octants untouched
+	{
+		o1 := nilOcts()
+		o1[int(o.Seed)%8] = noise([]uint64{6, 2, 0})
+		addDown(jcase{Kind: "down", G: g2, Paints: []blk.Paint{blk.Fill(6)}, Octs: o1})
+		o2 := nilOcts()
+		o2[(int(o.Seed)+3)%8] = []blk.Paint{blk.Fill(9)}
+		o2[(int(o.Seed)+6)%8] = []blk.Paint{blk.Fill(6)}
+		addDown(jcase{Kind: "down", G: g2, Paints: []blk.Paint{blk.Fill(6)}, Octs: o2})
+	}
 	// votes: ties to the smaller label, zeros never win, all zero gives zero
 	addVote(jcase{Kind: "vote", N: [3]int{4, 4, 4}, Paints: []blk.Paint{blk.Cyc([6]int{0, 0, 0, 4, 4, 4}, 0, 1, 3)}})
 	addVote(jcase{Kind: "vote", N: [3]int{4, 2, 2}, Paints: []blk.Paint{blk.Fill(0), blk.Box([6]int{0, 0, 0, 1, 1, 1}, 5), blk.Box([6]int{2, 0, 0, 4, 2, 1}, 9), blk.Box([6]int{2, 0, 1, 4, 2, 2}, 3)}})
 
-	nDown, nVote := 5, 4
+	nDown, nVote := 4, 4
 	if o.Thorough() {
 		nDown, nVote = 80, 40
 	}
@@ -403,16 +647,13 @@ func main() {
 		addDown(jcase{Kind: "down", G: g2, Paints: base, Octs: octs})
 	}
 	// non-cubic blocks (every dimension a multiple of 16): the octant offsets differ per axis
-	ncSizes := [][3]int{{2, 4, 2}, {4, 2, 2}, {2, 2, 4}, {2, 3, 4}, {4, 3, 2}} // X<Y, X>Z, all different
-	if o.Thorough() {
-		ncSizes = append(ncSizes, [3]int{2, 4, 6}, [3]int{6, 4, 2})
-	}
+	ncSizes := blk.NonCubic(o.Thorough()) // X<Y, X>Z, all different (the sweep shared with C10)
 	nNC := 2
 	if o.Thorough() {
 		nNC = 15
 	}
 	for i := 0; i < nNC; i++ {
-		g := ncSizes[(int(o.Seed)+i)%len(ncSizes)]
+		g := ncSizes[(int(o.Seed)+i)%3] // quick tier: two of the three smallest shapes (the all-different ones: thorough tier, and C10's chains)
 		if o.Thorough() {
 			g = ncSizes[i%len(ncSizes)]
 		}
@@ -441,7 +682,7 @@ func main() {
 	}
 
 	// ---- HTTP: a 32^3 window (2x2x2 scale-0 blocks of 16^3 = one scale-1 block = one octant of a scale-2 block), max level 2 ----
-	nHTTP := 3
+	nHTTP := 2
 	if o.Thorough() {
 		nHTTP = 20
 	}
@@ -449,16 +690,22 @@ func main() {
 	ingest := func(win [3]int, pal []uint64) jwrite {
 		return jwrite{Off: win, Size: [3]int{wn, wn, wn}, Paints: []blk.Paint{blk.Hash([6]int{0, 0, 0, wn, wn, wn}, uint64(rng.Pick(1, 2, 4)), uint64(rng.Intn(1<<16)), pal)}}
 	}
+	// the read window of the corpus histories: the two level-0 blocks (0,0,0) and (1,0,0) of a 2x2x2 group
+	// (the ingest still covers the whole group; the quick tier reads a quarter of it back)
+	hwd := [3]int{32, 16, 16}
+	if o.Thorough() {
+		hwd = [3]int{32, 32, 32}
+	}
 	// corpus: overwrite one block with zeros after a full ingest (the setBlank defect at the HTTP level)
 	{
 		win := [3]int{0, 0, 0}
-		addHTTP(jcase{Kind: "http", Max: 2, Win: win, WN: wn, Writes: []jwrite{ingest(win, []uint64{1, 2, 3}),
-			{Off: [3]int{16, 0, 16}, Size: [3]int{16, 16, 16}, Paints: []blk.Paint{blk.Fill(0)}}}})
+		addHTTP(jcase{Kind: "http", Max: 2, Win: win, WD: hwd, Writes: []jwrite{ingest(win, []uint64{1, 2, 3}),
+			{Off: [3]int{16, 0, 0}, Size: [3]int{16, 16, 16}, Paints: []blk.Paint{blk.Fill(0)}}}})
 	}
 	// corpus: a window over negative block coordinates (predicted: negative octant index)
 	{
 		win := [3]int{-32, -32, -32}
-		addHTTP(jcase{Kind: "http", Max: 2, Win: win, WN: wn, Writes: []jwrite{
+		addHTTP(jcase{Kind: "http", Max: 2, Win: win, WD: hwd, Writes: []jwrite{
 			{Off: win, Size: [3]int{32, 32, 32}, Paints: []blk.Paint{blk.Hash([6]int{0, 0, 0, 32, 32, 32}, 2, 77, []uint64{1, 2, 3})}}}})
 	}
 	// corpus: a mutating write that moves a box inside one block (per-label counts unchanged), on the
@@ -469,11 +716,11 @@ func main() {
 			win = [3]int{-32, 0, -32}
 		}
 		ing := ingest(win, []uint64{1, 2, 3})
-		// block (1,0,1) of the window: label 7 with a 4x4x4 box of label 8
-		ing.Paints = append(ing.Paints, blk.Box([6]int{16, 0, 16, 32, 16, 32}, 7), blk.Box([6]int{18, 2, 18, 22, 6, 22}, 8))
-		move := jwrite{Off: [3]int{win[0] + 16, win[1], win[2] + 16}, Size: [3]int{16, 16, 16},
+		// block (1,0,0) of the window: label 7 with a 4x4x4 box of label 8
+		ing.Paints = append(ing.Paints, blk.Box([6]int{16, 0, 0, 32, 16, 16}, 7), blk.Box([6]int{18, 2, 2, 22, 6, 6}, 8))
+		move := jwrite{Off: [3]int{win[0] + 16, win[1], win[2]}, Size: [3]int{16, 16, 16},
 			Paints: []blk.Paint{blk.Fill(7), blk.Box([6]int{9, 8, 3, 13, 12, 7}, 8)}, Child: k != 0}
-		addHTTP(jcase{Kind: "http", Max: max, Win: win, WN: wn, Writes: []jwrite{ing, move}})
+		addHTTP(jcase{Kind: "http", Max: max, Win: win, WD: hwd, Writes: []jwrite{ing, move}})
 	}
 	// a labelmap instance with a non-cubic BlockSize: window = 2x2x2 blocks, every block rewritten once more
 	ncBS := [][3]int{{16, 32, 16}, {32, 16, 16}, {16, 16, 32}, {16, 32, 48}}
@@ -531,6 +778,105 @@ func main() {
 		}
 		addHTTP(jcase{Kind: "http", Max: 1 + rng.Intn(2), Win: win, WN: wn, Writes: ws})
 	}
+	// ---- histories through the other ways of changing label data; window = two level-0 blocks in x ----
+	hwd = [3]int{32, 16, 16}
+	hwins := [][3]int{{0, 0, 0}, {-32, 0, 16}, {32, -16, -32}, {0, 16, 16}}
+	blockNoise := func(pal []uint64, n [3]int) []blk.Paint {
+		if rng.Chance(0.25) {
+			return []blk.Paint{blk.Fill(pal[rng.Intn(len(pal))])}
+		}
+		return []blk.Paint{blk.Hash([6]int{0, 0, 0, n[0], n[1], n[2]}, uint64(rng.Pick(1, 2, 4)), uint64(rng.Intn(1<<16)), pal)}
+	}
+	// (a) POST blocks with every combination of its options, one block per write, in a shuffled order;
+	//     a write without downres (or at scale 1) leaves the other levels as they are, a write with
+	//     downres refreshes what lies above the written block, an illegal combination is refused
+	{
+		type combo struct {
+			scale  int
+			dr, ni bool
+			comp   string
+		}
+		var combos []combo
+		for _, sc := range []int{0, 1} {
+			for _, dr := range []bool{false, true} {
+				for _, ni := range []bool{false, true} {
+					for _, cp := range []string{"", "blocks", "gzip"} {
+						combos = append(combos, combo{sc, dr, ni, cp})
+					}
+				}
+			}
+		}
+		for a := len(combos) - 1; a > 0; a-- {
+			b := rng.Intn(a + 1)
+			combos[a], combos[b] = combos[b], combos[a]
+		}
+		nHist := 2
+		per := len(combos) / nHist
+		for h := 0; h < nHist; h++ {
+			win := hwins[(int(o.Seed)+h)%len(hwins)]
+			var ws []jwrite
+			for q, cb := range combos[h*per : (h+1)*per] {
+				off := [3]int{win[0] + 16*rng.Intn(2), win[1], win[2]}
+				if cb.scale == 1 {
+					off = [3]int{floorDiv(win[0], 32) * 16, floorDiv(win[1], 32) * 16, floorDiv(win[2], 32) * 16}
+				}
+				ws = append(ws, jwrite{Via: "blocks", Scale: cb.scale, Downres: cb.dr, NoIndex: cb.ni, Comp: cb.comp, Off: off, Size: [3]int{16, 16, 16},
+					Paints: blockNoise([]uint64{uint64(1 + q), uint64(40 + q), 0}, [3]int{16, 16, 16})})
+			}
+			addHTTP(jcase{Kind: "http", Max: 2, Win: win, WD: hwd, Writes: ws})
+		}
+	}
+	// (b) splits: a supervoxel that spans both blocks, a split volume that touches one or both; body
+	//     splits (SplitLabels) and supervoxel splits, the second acting on what the first produced
+	nSplit := 2
+	if o.Thorough() {
+		nSplit = 12
+	}
+	for i := 0; i < nSplit; i++ {
+		win := hwins[(int(o.Seed)+i+1)%len(hwins)]
+		x0, x1 := 2+rng.Intn(10), 20+rng.Intn(10) // the supervoxel's x extent crosses the block boundary at 16
+		y0, z0 := rng.Intn(6), rng.Intn(6)
+		y1, z1 := y0+4+rng.Intn(6), z0+4+rng.Intn(6)
+		ing := jwrite{Off: win, Size: hwd, Paints: []blk.Paint{blk.Hash([6]int{0, 0, 0, 32, 16, 16}, uint64(rng.Pick(2, 4)), uint64(rng.Intn(1<<16)), []uint64{1, 2, 0}),
+			blk.Box([6]int{x0, y0, z0, x1, y1, z1}, 7)}}
+		if rng.Bool() {
+			ing.Via, ing.Downres = "blocks", true
+		}
+		// split volume: a slab of the supervoxel inside the first block, or one across the boundary
+		m1 := [6]int{x0, y0, z0, x0 + 1 + rng.Intn(15-x0), y1, z0 + 1 + rng.Intn(z1-z0)}
+		if i%3 == 2 {
+			m1 = [6]int{12, y0, z0, 20, y0 + 2, z1}
+		}
+		first, second := "bodysplit", "svsplit"
+		if i%2 == 1 {
+			first, second = second, first
+		}
+		mid := [3]int{win[0] + x1 - 1, win[1] + y1 - 1, win[2] + z1 - 1} // a voxel of the remaining part
+		ws := []jwrite{ing,
+			{Via: first, Label: 7, Off: win, Size: hwd, Paints: []blk.Paint{blk.Box(m1, 1)}},
+			{Via: second, At: &mid, Off: win, Size: hwd, NoDown: second == "svsplit" && rng.Chance(0.2),
+				Paints: []blk.Paint{blk.Box([6]int{x0, y0, z0, x1, y0 + 1 + rng.Intn(y1-y0), z1}, 1), blk.Box([6]int{0, 0, 0, 16 + 8*rng.Intn(2), 16, 16}, 0)}}}
+		addHTTP(jcase{Kind: "http", Max: 1 + rng.Intn(2), Win: win, WD: hwd, Writes: ws})
+	}
+	// (c) two-step histories: a uniform region first (solid stored parents at every level), then partial
+	//     updates of single blocks
+	nUni := 2
+	if o.Thorough() {
+		nUni = 10
+	}
+	for i := 0; i < nUni; i++ {
+		win := hwins[(int(o.Seed)+i)%len(hwins)]
+		u := uint64(rng.Pick(5, 1, 9))
+		reg := 32 << uint(i%2) // 32^3: solid parent at level 1; 64^3: solid parents at levels 1 and 2
+		base := [3]int{floorDiv(win[0], reg) * reg, floorDiv(win[1], reg) * reg, floorDiv(win[2], reg) * reg}
+		ws := []jwrite{{Off: base, Size: [3]int{reg, reg, reg}, Paints: []blk.Paint{blk.Fill(u)}}}
+		bx := 16 * rng.Intn(2) // one block of the window is updated, the other must keep the uniform label
+		for j := 0; j < 1+rng.Intn(2); j++ {
+			ws = append(ws, jwrite{Off: [3]int{win[0] + bx, win[1], win[2]}, Size: [3]int{16, 16, 16},
+				Paints: blockNoise([]uint64{u, uint64(20 + j), 0}, [3]int{16, 16, 16}), Child: rng.Chance(0.25)})
+		}
+		addHTTP(jcase{Kind: "http", Max: 2 + i%2, Win: win, WD: hwd, Writes: ws})
+	}
 	for i := 0; i < nHTTP; i++ {
 		win := [3]int{0, 0, 0}
 		if rng.Chance(0.4) {
@@ -562,8 +908,9 @@ func main() {
 		addHTTP(jcase{Kind: "http", Max: 1 + rng.Intn(3), Win: win, WN: wn, Writes: ws})
 	}
 
+	flushHTTP()
 	run.Finish("c14case",
-		"Block.Downres with every mix of nil / solid / mixed octants over mixed and solid parents; DownresLabels on small arrays with ties and zeros; labelmap over HTTP: ingest of a 64^3 window then 1-2 overwrites of block groups (one block, a row, 2x2x2, solid 0), windows at non-negative and negative block coordinates, levels 0..2 read back; distinct by (kind, touch pattern, content digest)",
+		"Block.Downres with every mix of nil / solid / mixed octants over mixed and solid parents; DownresLabels on small arrays with ties and zeros; labelmap over HTTP: ingest of a 64^3 window then 1-2 overwrites of block groups (one block, a row, 2x2x2, solid 0), windows at non-negative and negative block coordinates, levels 0..2 read back; histories through POST blocks (all option combinations), body splits (SplitLabels) and supervoxel splits, uniform regions followed by partial updates; distinct by (kind, touch pattern, content digest)",
 		tail)
 }
 
